@@ -2,7 +2,7 @@ INIT Init
 NEXT Next
 CONSTANTS
   Alphabet = {"q", "b", "n", "0", "x", "N", "d", "k", "w", "Z", "L", "C", "M"}
-  MaxLen = 4
+  MaxLen = 3
   Alphabet2 = {"q", "b", "n", "k", "w"}
   MaxLen2 = 1
   EscMap <- AltEscMap
